@@ -17,6 +17,16 @@ class condense_ballots:
     forall = dict(kb=Ballot, rk=Bool, k=Seq(CSet), a=Int, b=Int, sv=Seq(Real), x=Str, C=CSet)
     locals = dict(weight_accumulator=BDict, new_ballot_list=Seq(Ballot, "list"), i=Int)
 
+    def witnesses():
+        from votekit.ballot import Ballot
+        from votekit.pref_profile import PreferenceProfile
+        A, B, C = frozenset("A"), frozenset("B"), frozenset("C")
+        bs = (Ballot(ranking=(A, B), weight=Fraction(3)), Ballot(ranking=(A, B), scores={"A": 1}, weight=Fraction(1)), Ballot(ranking=(B,), weight=Fraction(1, 2)),
+              Ballot(ranking=(A, B), weight=Fraction(2)), Ballot(scores={"A": 1}, weight=Fraction(1)), Ballot(ranking=(A, B), scores={"A": 1}, weight=Fraction(5)))
+        p = PreferenceProfile(ballots=bs, candidates=("A", "B", "C"))
+        return [dict(self=p, kb=Ballot(ranking=(A, B), weight=Fraction(0)), rk=rk, k=(A, B), a=0, b=2, sv=(Fraction(3), Fraction(2), Fraction(1)), x="B",
+                     C=frozenset("ABC")) for rk in (True, False)]
+
     def requires(self):
         # data-structure invariant of a constructed profile: a duplicate-free candidate list
         return distinct(self.candidates, len(self.candidates))
